@@ -69,6 +69,11 @@ CHECKS['C10'] = dict(
    text='States reachable by histories of 12 good and 4 run-time-failing sources to depth 2 (quick) / 3 (thorough) in both submission styles (eval; compile then run); in each state every one of ~750 (quick) / ~5000 (thorough) rejected sources (prefix leaving open structures or meta blocks x failing token x trailing text) is submitted both ways and must leave no trace; by induction any history with rejected sources deleted behaves identically. Plus all histories of length <= 2/3 containing a run-time failure followed by every probe: the failure marker prints exactly once and the two styles agree.',
    note='Assumes equal complete dumps imply equal futures. Constants overwritten in place inside a rejected source, and the stack residue of a run-time failure, are outside the check.',
    ref='DESIGN.md §4 C10')
+CHECKS['C06'] = dict(
+   technique='explicit-state BFS over parsing-word sequences on the real interpreter, keyed by the cursor model state, run to closure; every transition compared with the cursor model',
+   text='From 5 (quick) / 9 (thorough) initial inputs (empty, with NUL, 19 bits, slices starting at bit 3/5/8, float-sized) every parsing word (bits bytes uN iN int uint fN float magic seek find remain offset input nulbytestr cstr dump big little open-bitstr close-bitstr) with every argument of the size alphabet (0..129, remain, remain+1, 2^32, 2^63-1, 2^63, 2^64-1, 2^64, i128::MAX, -1, nil, 1.5) and pattern/position alphabets, nesting <= 2/3 opened inputs, BFS to closure over the model state (input bits, consumed bits, storage base, byte order). Success: value = model bits/number, offset advanced exactly, remain and input agree. Failure: error returned, input/offset/stash and the stack below the arguments untouched.',
+   note='Inputs longer than 8 bytes not covered. `find` may refuse non-byte-aligned cursors/patterns; little-endian reads of odd widths only have their cursor movement checked.',
+   ref='DESIGN.md §4 C06')
 
 NOT_BUILT = {}
 
